@@ -91,8 +91,12 @@ func (in *Interp) callFn(fr *frame, fn *ssa.Function, args []Value, env []Value,
 		return r
 	}
 	if st, ok := stubs[name]; ok {
-		in.StubHit[name] = true
-		return st(in, fr, fn, args)
+		if d := in.directive(fn, replModeReal); d != nil && fn.Blocks != nil {
+			in.noteDirective(d, fn) // harness opted out of the engine stub: interpret the body
+		} else {
+			in.StubHit[name] = true
+			return st(in, fr, fn, args)
+		}
 	}
 	if fn.Blocks == nil {
 		return in.notEncodable("call to %s: no body and no stub", name)
